@@ -3,7 +3,7 @@ import json
 from .. import family, mapcase
 
 PROPS_FILES = ['theories/Props/C14.v']
-FINDINGS_FILES = ['theories/Findings/C14.v']
+FINDINGS_FILES = ['theories/Findings/C14.v', 'theories/Findings/Recorded.v']
 LEVEL = 'proof'
 TRUSTED = ['Model/Functions.v: ASCII-exact definitions of 8 built-in functions (parameters regenerated from bif_dict) and of the 5 user-defined functions of harness/udfs.py',
            'Model/Engine.v exec_fnml (row-wise reading of execute_fnml: inner executions stored as columns, binding by parameter IRI, null removal, explode) and Model/Spec.v spec_eval (the property\'s reading)']
